@@ -404,6 +404,8 @@ type Path struct {
 	ghost    map[string]Value
 	inInit   bool
 	payload  map[*Term]Value
+	callerName string
+	lateTimers []*Chan
 	witness  *Violation
 	tornIDs  []*Term
 	crcArgs  []*Term
